@@ -5,8 +5,8 @@ on every check run, from the CURRENT source text.  Output: SlacModel/Generated/S
 hand-written builtin models (SlacModel/Stdlib.lean, StdOrder.lean) equal to the generated functions.
 
 Translated: Value::len (value.rs); get_index, get_string_index, default_string, default_number, smart_vec (mod.rs);
-            at, between, bool, compare, empty, if_then, length, all, any, max, min, reverse, float, int (common.rs);
-            is_even, even, odd, pow (math.rs); lowercase, uppercase, same_text, trim, trim_left, trim_right (string.rs).
+            at, between, bool, compare, empty, if_then, length, all, any, max, min, reverse, float, int, copy, count, find, replace, contains, insert, unique (common.rs);
+            is_even, even, odd, pow (math.rs); split, lowercase, uppercase, same_text, trim, trim_left, trim_right (string.rs).
 Reading of Rust beyond tools/rs2lean.py (same conventions: ownership erased, Result = Except, slice patterns matched top to bottom, a guarded
 arm falls through):
   * `x as usize` on an f64 is the saturating cast `NumX.toUsize`; `STRING_OFFSET as usize` is the parameter `off` (1, or 0 with the feature
@@ -46,10 +46,37 @@ class StdCtx(Ctx):
             parts = [x if re.fullmatch(r"[\w.']+", x) else f'({x})' for x in parts]
             return ' :: '.join(parts + ['_'])
         return super().pat(p, ty, env, holes)
+    def has_return(self, e):
+        if isinstance(e, tuple): return (bool(e) and e[0] == 'return') or any(self.has_return(x) for x in e)
+        if isinstance(e, list): return any(self.has_return(x) for x in e)
+        return False
     def block(self, e, env):
         # `if c { return x; }` followed by the rest of the block  ->  if c then x else rest
         _, stmts, tail = e
         for i, st in enumerate(stmts):
+            # `let x = match s { p => v, q => return r, … }; rest`  ->  match s { p => (let x = v; rest), q => r, … }
+            if st[0] == 'let' and st[2][0] == 'match' and self.has_return(st[2]) and st[1][0] == 'pbind':
+                arms = []
+                for pats, guard, body in st[2][2]:
+                    if body[0] == 'return': arms.append((pats, guard, body[1]))
+                    elif self.has_return(body): raise Unrecognised('return inside a match arm')
+                    else: arms.append((pats, guard, ('block', [('let', st[1], body)] + stmts[i + 1:], tail)))
+                return super().block(('block', stmts[:i], ('match', st[2][1], arms)), env)
+            # `v.insert(i, x);` on a local Vec: rebinding (Vec::insert shifts the elements from position i on)
+            if st[0] == 'expr' and st[1][0] == 'mcall' and st[1][2] == 'insert' and st[1][1][0] == 'path' and len(st[1][1][1]) == 1 and len(st[1][4]) == 2:
+                stmts = stmts[:i] + [('let', ('pbind', st[1][1][1][0]), ('call', ('path', ['__insert_at']), [st[1][1]] + st[1][4]))] + stmts[i + 1:]
+                return self.block(('block', stmts, tail), env)
+            # `for x in xs { if c { acc.push(x) } }`: a left fold over xs
+            if st[0] == 'expr' and st[1][0] == 'for' and st[1][1][0] == 'pbind':
+                body = st[1][3]; inner = body[2] if (not body[1] and body[2] is not None) else (body[1][0][1] if len(body[1]) == 1 and body[2] is None else None)
+                if inner is not None and inner[0] == 'if' and inner[3] is None:
+                    blk = inner[2]; push = blk[1][0][1] if len(blk[1]) == 1 and blk[2] is None else blk[2]
+                    if push and push[0] == 'mcall' and push[2] == 'push' and push[1][0] == 'path' and len(push[1][1]) == 1 and len(push[4]) == 1:
+                        acc = push[1][1][0]
+                        fold = ('call', ('path', ['__fold_push']), [('path', [acc]), st[1][2], ('closure', [('pbind', acc), st[1][1]], inner[1]), ('closure', [('pbind', acc), st[1][1]], push[4][0])])
+                        stmts = stmts[:i] + [('let', ('pbind', acc), fold)] + stmts[i + 1:]
+                        return self.block(('block', stmts, tail), env)
+                raise Unrecognised('shape of a for loop')
             if st[0] == 'expr' and st[1][0] == 'if' and st[1][3] is None:
                 blk = st[1][2]; last = blk[1][-1] if blk[1] else None
                 ret = blk[2] if blk[2] is not None and blk[2][0] == 'return' else (last[1] if last and last[0] == 'expr' and last[1][0] == 'return' and blk[2] is None else None)
@@ -118,6 +145,23 @@ class StdCtx(Ctx):
         if k == 'call' and e[1] == ('path', ['f64', 'from']) and len(e[2]) == 1:
             s, t = self.tx(e[2][0], env)
             if t == 'ordering_i8': return f'StdOrder.ordCode {self.paren(s)}', 'f64'
+        if k == 'call' and e[1] == ('path', ['__insert_at']) and len(e[2]) == 3:
+            v, vt = self.tx(e[2][0], env); i, it = self.tx(e[2][1], env); x, xt = self.tx(e[2][2], env)
+            if vt == 'values' and it == 'usize' and xt == 'value': return f'Stdlib.insertAt {self.paren(v)} {self.paren(i)} {self.paren(x)}', 'values'
+            raise Unrecognised('Vec::insert')
+        if k == 'call' and e[1] == ('path', ['__fold_push']) and len(e[2]) == 4:
+            a, at = self.tx(e[2][0], env); xs, xt = self.tx(e[2][1], env)
+            if at != 'values' or xt != 'values': raise Unrecognised('for loop over a non-Vec')
+            env1 = dict(env); pa = self.pat(e[2][2][1][0], 'values', env1); px = self.pat(e[2][2][1][1], 'value', env1)
+            c, ct = self.tx(e[2][2][2], env1); v, vt = self.tx(e[2][3][2], env1)
+            return f'List.foldl (fun {pa} {px} => if {c} then {pa} ++ [{v}] else {pa}) {self.paren(a)} {self.paren(xs)}', 'values'
+        if k == 'macro' and e[1] == 'vec' and not e[2]: return '[]', 'values'
+        if k == 'binop' and e[1] == '>':
+            l, lt = self.tx(e[2], env); r, rt = self.tx(e[3], env)
+            if lt == 'usize' and rt == 'usize': return f'decide ({l} > {r})', 'bool'
+        if k == 'binop' and e[1] == '+':
+            l, lt = self.tx(e[2], env); r, rt = self.tx(e[3], env)
+            if lt == 'str' and rt == 'str': return f'{self.paren(l)} ++ {self.paren(r)}', 'str'
         if k == 'call' and e[1] == ('path', ['usize_from_f64']) and len(e[2]) == 1:
             s, t = self.tx(e[2][0], env)
             if t == 'f64': return f'NumX.floorUsize {self.paren(s)}', 'usize'
@@ -207,6 +251,20 @@ class StdCtx(Ctx):
         if name == 'replace' and len(args) == 2:
             s, t = self.tx(recv, env); a, at = self.tx(args[0], env); b, bt = self.tx(args[1], env)
             if t == 'str' and at == 'str' and bt == 'str': return f'Seq.replaceSeq {self.paren(a)} {self.paren(b)} {self.paren(s)}', 'str'
+        if name == 'contains' and len(args) == 1:
+            s, t = self.tx(recv, env); a, at = self.tx(args[0], env)
+            if t == 'str' and at == 'str': return f'Seq.containsSeq {self.paren(a)} {self.paren(s)}', 'bool'          # str::contains(&str): a contiguous occurrence
+            if t == 'values' and at == 'value': return f'List.any {self.paren(s)} (fun r => Value.eq r {self.paren(a)})', 'bool'   # Vec::contains: `r == x` for some element
+        if name == 'any' and recv[0] == 'mcall' and recv[2] == 'iter' and len(args) == 1 and args[0][0] == 'closure':
+            pass
+        if name == 'collect' and not args and recv[0] == 'mcall' and recv[2] in ('take', 'skip') and len(recv[4]) == 1 and recv[1][0] == 'mcall' and recv[1][2] == 'chars' and not recv[1][4]:
+            s, t = self.tx(recv[1][1], env); n, nt = self.tx(recv[4][0], env)
+            if t == 'str' and nt == 'usize': return f'List.{ {"take": "take", "skip": "drop"}[recv[2]] } {self.paren(n)} {self.paren(s)}', 'str'
+        # `line.split(sep).map(String::from).map(Value::String).collect()`: the pieces between non-overlapping occurrences (std) = Seq.splitOn
+        if name == 'collect' and not args and recv[0] == 'mcall' and recv[2] == 'map' and recv[4] == [('path', ['Value', 'String'])] and recv[1][0] == 'mcall' and recv[1][2] == 'map' \
+           and recv[1][4] == [('path', ['String', 'from'])] and recv[1][1][0] == 'mcall' and recv[1][1][2] == 'split' and len(recv[1][1][4]) == 1:
+            s, t = self.tx(recv[1][1][1], env); a, at = self.tx(recv[1][1][4][0], env)
+            if t == 'str' and at == 'str': return f'List.map Value.str (Seq.splitOn {self.paren(a)} {self.paren(s)})', 'values'
         if name == 'floor' and not args:
             s, t = self.tx(recv, env)
             if t == 'f64': return f'NumX.floor {self.paren(s)}', 'f64'
@@ -259,7 +317,8 @@ HELPERS = [('get_index', 'get_index', False), ('get_string_index', 'get_string_i
 BUILTINS = [('at', 'at_', True), ('between', 'between', False), ('bool', 'bool', False), ('compare', 'compare', False), ('empty', 'empty', False),
             ('if_then', 'if_then', False), ('length', 'length', False), ('all', 'all', False), ('any', 'any', False), ('max', 'max', False), ('min', 'min', False),
             ('reverse', 'reverse', False), ('float', 'float', False), ('int', 'int', False),
-            ('copy', 'copy', True), ('count', 'count', False), ('find', 'find', True), ('replace', 'replace', False)]
+            ('copy', 'copy', True), ('count', 'count', False), ('find', 'find', True), ('replace', 'replace', False),
+            ('contains', 'contains', False), ('insert', 'insert', True), ('unique', 'unique', False)]
 
 def strip_macros(text):
     """remove `macro_rules! name { … }` definitions and `name!( … );` item invocations of those macros (their `$` syntax is outside the parser)"""
@@ -283,7 +342,7 @@ def strip_macros(text):
             text = cut(text, m.start(), '(', ')')
     return text
 
-STRING = [('lowercase', 'lowercase'), ('uppercase', 'uppercase'), ('same_text', 'same_text'), ('trim', 'trim'), ('trim_left', 'trim_left'), ('trim_right', 'trim_right')]
+STRING = [('split', 'split'), ('lowercase', 'lowercase'), ('uppercase', 'uppercase'), ('same_text', 'same_text'), ('trim', 'trim'), ('trim_left', 'trim_left'), ('trim_right', 'trim_right')]
 MATH = [('even', 'even', False), ('odd', 'odd', False), ('pow', 'pow', False)]
 
 def gen_stdlib(srcdir):
